@@ -74,12 +74,12 @@ def run(chk):
   for i in range(700 if thorough else 70):
     vars_ = C8.gen_vars(rng)
     for v in vars_:
-      v['type'] = rng.choice(['Param', 'Param', 'BatchStat', 'Cache', 'Custom', 'SubParam'])
+      v['type'] = rng.choice(['Param', 'Param', 'BatchStat', 'Cache', 'Custom', 'SubParam', 'SubParam', 'Queue', 'StepStat'])
       v['spec'] = 'carry'
       v['val'] = [rng.randint(-3, 4) for _ in range(rng.randint(1, 3))]
     body = C8.gen_body(rng, vars_, 'vmap')
     n = rng.randint(1, 3)
-    colsw = sorted({{'Param': 'params', 'BatchStat': 'batch_stats', 'Cache': 'cache', 'Custom': 'Custom', 'SubParam': 'SubParam'}[vars_[s[1]]['type']] for s in body['stmts'] if s[0] in ('addto', 'scale')})
+    colsw = sorted({{'Param': 'params', 'BatchStat': 'batch_stats', 'Cache': 'cache', 'Custom': 'Custom', 'SubParam': 'SubParam', 'Queue': 'Queue', 'StepStat': 'StepStat'}[vars_[s[1]]['type']] for s in body['stmts'] if s[0] in ('addto', 'scale')})
     r = rng.random()
     mutable = True if r < 0.3 else (colsw if r < 0.6 and colsw else rng.choice([False, ['batch_stats'], ['cache', 'Custom'], ['SubParam'], colsw[:1]]))
     if i % 6 == 5:
@@ -150,7 +150,7 @@ def run(chk):
         row.append('(match apply_m %s %s %s %s with Ok (y, s) => vec_beq y %s && lv_eqv (to_linen (merge_updates (to_nnx (flat_vtree %s)) (flat_vtree (returned %s (s_vars s))))) (flat_vtree %s) '
                    '| Err _ => false end)' % (env, top, vb, LP.cvec(x), LP.cvec(impl['out']), vb, env, LP.cvtree(impl['vars'])))
     rows.append((('tonnx', c, o), '(' + ' && '.join(row) + ')'))
-  COLOF = {'Param': 'params', 'BatchStat': 'batch_stats', 'Cache': 'cache', 'Custom': 'Custom', 'SubParam': 'SubParam'}
+  COLOF = {'Param': 'params', 'BatchStat': 'batch_stats', 'Cache': 'cache', 'Custom': 'Custom', 'SubParam': 'SubParam', 'Queue': 'Queue', 'StepStat': 'StepStat'}
   for c, o in zip(tl, lres):
     chk.count({'tolinen': c}, c['mutable'] is not False and len(c['desc']['vars']) > 1)
     if 'err' in o:
@@ -195,6 +195,33 @@ def run(chk):
       vals = newvals
     if row:
       rows.append((('tolinen', c, o), '(' + ' && '.join(row) + ')'))
+  # sharding metadata of boxed Linen variables through ToNNX and back (names, logical rules, an explicit mesh); the source variables stay as they were
+  mc = [{'params': [{'kind': rng.choice(['plain', 'part', 'part', 'logical']), 'rank': rng.randint(1, 2), 'mesh': rng.random() < 0.5, 'seed': rng.randint(0, 5)} for _ in range(rng.randint(1, 3))]}
+        for _ in range(16 if thorough else 4)]
+  mres = common.run_impl('impl_c18.py', {'meta': mc}, timeout=1500)['meta']
+  for c, o in zip(mc, mres):
+    chk.count({'sharding_metadata': c}, any(d['kind'] != 'plain' for d in c['params']))
+    if 'err' in o:
+      chk.violation('oracle', 'a Linen module with partitioned parameters could not be converted with ToNNX: %s' % o['err'], {'case': c, 'tb': o.get('tb')})
+      continue
+    r = o['ok']
+    if r['source_after'] != r['want'] or r['spec_after'] != r['spec_before']:
+      chk.violation('oracle', 'converting Linen variables to NNX attributes changed the caller\'s Linen variables (a box lost its names / rules / mesh; get_partition_spec afterwards: %s)' % r['spec_after'],
+                    {'case': c, 'before': r['want'], 'after': r['source_after']})
+      continue
+    for k, w in r['want'].items():
+      if w['type'] == 'raw':
+        continue
+      n = r['nnx_side'][k]
+      if n['sharding'] != w['names'] or n['mesh'] != w['mesh'] or (w['rules'] is not None and n['rules'] != w['rules']):
+        chk.violation('oracle', 'the NNX Variable ToNNX creates for a boxed Linen parameter does not carry its sharding metadata (names as sharding, rules as sharding_rules, mesh)',
+                      {'case': c, 'param': k, 'linen_box': w, 'nnx_variable': n})
+    for j, cl in enumerate(r['calls']):
+      if cl['boxes'] != r['want']:
+        chk.violation('oracle', 'on call %d the Linen module inside ToNNX received other boxes than linen init produces (type, names, rules or mesh lost in NNX -> Linen)' % (j + 1),
+                      {'case': c, 'received': cl['boxes'], 'expected': r['want']})
+      if cl['y'] != cl['y_ref']:
+        chk.violation('oracle', 'ToNNX output differs from linen apply on the values the wrapper holds', {'case': c, 'observed': cl})
   # histories on the name <-> type registry itself (names and classes of their own), against Model/Bridge.v
   rg = []
   for i in range(400 if thorough else 60):
